@@ -390,6 +390,8 @@ def c03(tier, seed):
     shards += SPARSE_PAGE(split_file(path, 3)[seed % 3] if q else path, seed)
     for mode in ("keyval", "keyonly", "sparse"):
         shards += fam_shards([("page", ["-mode", mode])], seed, 1 if q else 12, 2 if q else 3, 30 if q else 80)
+    # paging after Merge (puts without TTL and deletes of existing keys only, so that any bookkeeping of "valid keys" is exact)
+    shards += fam_shards([("pagemerge", ["-mode", "keyval"]), ("pagemerge", ["-mode", "keyonly"])], seed, 1 if q else 8, 2 if q else 3, 40 if q else 90)
     # paging on the exported B+ tree itself (several leaves and levels; offsets up to beyond the key count)
     shards += fam_shards([("bptree", [])], seed + 1, 1 if q else 10, 1 if q else 2, 10 if q else 40)
     rs = core.drive_and_validate(res, shards, core.dev_set(), "a paginated scan returned something else than the live keys with the prefix after skipping offset, at most limit",
